@@ -78,7 +78,13 @@ TEXT["C18"] = dict(
   note="Event-stepped and yield modes are replayable (60-seed x 6-process determinism self-test per run); burst steps are not and are excluded from replay claims. 'Queued before the disconnect' is judged by logical stamps of the calling goroutines. The BIP324 transport inside peer is C19's subject.",
   ref="DESIGN.md §5 C18")
 
-READY = ["C01", "C02", "C03", "C04", "C09", "C10", "C12", "C14", "C17", "C18", "C19"]
+TEXT["C05"] = dict(
+  technique="deterministic simulation with fault enumeration: real ffldb + real goleveldb on a simulated disk (every I/O call an indexed fault point: error, short write, crash with process-crash or power-loss semantics), refinement against an in-memory reference database, porcupine for reader/writer isolation",
+  level="Seeded operation sequences (buckets, keys, cursors, blocks, regions, pruning, commits/rollbacks, reopen, cache/file-size knobs) are executed in lockstep with the reference model modeldb (fault-free refinement); for each sampled workload every I/O call index is made to fail in turn (complete enumeration for workloads up to 60 I/O calls in quick, 400 in thorough) and the store must be in the before- or after-state of the interrupted transaction; crashes at every enumerated I/O point (process crash and power loss, 20% with a second crash during reopen) must reopen to a prefix of the committed transactions no shorter than the last completed flush, byte-identical blocks; reader/writer interleavings are checked with porcupine.",
+  note="goleveldb runs in a deterministic configuration (L0 triggers raised, seek compaction off, 64 KiB write buffer) so that all I/O happens on the driver goroutine and fault indices replay; its own background-compaction configuration is not explored. Four remaining known findings (F-C05-1,3,7,8) are reported as KNOWN-FINDING.",
+  ref="DESIGN.md §5 C05")
+
+READY = ["C01", "C02", "C03", "C04", "C05", "C09", "C10", "C12", "C14", "C17", "C18", "C19"]
 
 def main():
     verif = os.path.dirname(os.path.abspath(__file__))
